@@ -106,7 +106,7 @@ func (v *Verifier) expandConstructs() []string {
 			addClause(c, "requires", "", "recv", "s != nil")
 			// data-structure invariant of the Code tree (C02, C11, C12 rely on it): the builder may assume it and
 			// must re-establish it, given well-formed arguments
-			if !fn.isFunc && os.Getenv("JVC_TREEOK") != "" {
+			if !fn.isFunc {
 				switch row.Kind {
 				case "group":
 					params := sfn.Params[1:]
@@ -126,6 +126,10 @@ func (v *Verifier) expandConstructs() []string {
 				if argsOK != "" && os.Getenv("JVC_DROP_ARGS") == "" {
 					addClause(c, "requires", "", "args", argsOK)
 				}
+				addClause(c, "ensures", "C02", "tree", "treeOK()", "treeOK")
+			} else {
+				// a callback changes the tree only through the exported API (see execCallback)
+				addClause(c, "requires", "", "tree", "treeOK()", "treeOK")
 				addClause(c, "ensures", "C02", "tree", "treeOK()", "treeOK")
 			}
 			addMod(c, "*s", "tail(*s)")
